@@ -1660,7 +1660,7 @@ def detect_variant():
 
 
 def _tlc_jobs(tier):
-    jobs = [('check', 'MC_ParamProto_%s.cfg' % ('quick' if tier == 'quick' else 'thorough'), 8 if tier == 'quick' else 6),
+    jobs = [('check', 'MC_ParamProto_%s.cfg' % ('quick' if tier == 'quick' else 'thorough'), 6),
             ('check', 'MC_ParamProto_codec.cfg', 2), ('check', 'MC_ParamProto_cbs.cfg', 2),
             ('check', 'MC_ParamProto_dup_quick.cfg' if tier == 'quick' else 'MC_ParamProto_dup.cfg', 4)]
     if tier == 'thorough':
@@ -1828,22 +1828,22 @@ def main(tier, seed, replay=None):
     pipe_w.close()
     try:
         # 3a. code -> spec: enumerations + seeded random programs executed on the real code
-        msc = mutant_scenarios(rng, 20 if tier == 'quick' else 160)
+        msc = mutant_scenarios(rng, 12 if tier == 'quick' else 100)
         pairs = pair_scenarios()
         if tier == 'quick':
-            pairs = pairs[:len(pairs) // 4]
+            pairs = pairs[:len(pairs) // 6]
         dsc = dup_scenarios()
         if tier == 'quick':
-            dsc = dsc[::3]
+            dsc = dsc[::4]
         dval_ = [sc for sc in dsc if sc['users'][0][0][0] in ('read', 'set')]
         dmisc = [sc for sc in dsc if sc['users'][0][0][0] not in ('read', 'set')]
-        ssc = msc + dval_[::(8 if tier == 'quick' else 3)] + dmisc[::(24 if tier == 'quick' else 8)]   # what the mutants run on
+        ssc = msc + dval_[::(8 if tier == 'quick' else 4)] + dmisc[::(24 if tier == 'quick' else 12)]   # what the mutants run on
         csc, hsc = callback_scenarios(), hold_scenarios()
         if tier == 'quick':
             csc, hsc = csc[::2], hsc[::3]
-        ssc += csc[::(8 if tier == 'quick' else 3)] + hsc[::(9 if tier == 'quick' else 3)]
+        ssc += csc[::(8 if tier == 'quick' else 4)] + hsc[::(9 if tier == 'quick' else 5)]
         scs = codec_scenarios(rng) + pairs + msc + dsc + csc + hsc + connect_ntf_scenarios()
-        nrand = 350 if tier == 'quick' else 16000
+        nrand = 300 if tier == 'quick' else 10000
         for i in range(nrand):
             scs.append(gen_scenario(random.Random(rng.randrange(1 << 60)), big=(i % 4 == 0), misc_unique=(i % 3 != 0)))
         traces = run_scenarios(scs)
